@@ -339,11 +339,16 @@ func NewListener(
 		})
 	case agd.ProtoDNSCrypt:
 		dcConf := s.DNSCrypt
-		l = dnsserver.NewServerDNSCrypt(dnsserver.ConfigDNSCrypt{
+		dnsCryptConf := dnsserver.ConfigDNSCrypt{
 			ConfigBase:           baseConf,
 			DNSCryptProviderName: dcConf.ProviderName,
 			DNSCryptResolverCert: dcConf.Cert,
-		})
+		}
+		if udpConf := s.UDPConf; udpConf != nil {
+			dnsCryptConf.MaxUDPRespSize = udpConf.MaxRespSize
+		}
+
+		l = dnsserver.NewServerDNSCrypt(dnsCryptConf)
 	case agd.ProtoDoH:
 		l = dnsserver.NewServerHTTPS(dnsserver.ConfigHTTPS{
 			ConfigBase:        baseConf,
